@@ -508,9 +508,11 @@ func report(o *Options, w *World, prop string, seed int, all []*Obligation, repo
 					replays[i] = map[string]interface{}{"replayed_on_real_code": false, "replay_note": fmt.Sprintf("replay generator failed: %v", r)}
 				}
 			}()
-			replayMu.Lock()
-			prep := replayPrepare(o, w, ob)
-			replayMu.Unlock()
+			prep := func() *replayPrep {
+				replayMu.Lock()
+				defer replayMu.Unlock()
+				return replayPrepare(o, w, ob)
+			}()
 			replays[i] = replayRun(o, prep)
 		}(i, groups[base].rep)
 	}
